@@ -300,6 +300,19 @@ func init() {
 				build(c18Names[:2], nn, c18Seps[:2])
 			}
 		}
+		// the longest names that are still domain names (253 bytes), as bare-domain and address lines
+		for _, total := range []int{252, 253} {
+			lab := strings.Repeat("a", 61)
+			name := lab + "." + lab + "." + lab + "."
+			name += strings.Repeat("b", total-len(name)-5) + ".test"
+			if len(name) != total {
+				panic(HarnessError("long name has the wrong length"))
+			}
+			for _, cm := range []string{"", " # c", "  "} {
+				add(c18Line{line: name + cm, addr: "", names: []string{name}})
+				add(c18Line{line: "0.0.0.0 " + name + cm, addr: "0.0.0.0", names: []string{name}})
+			}
+		}
 		// mixed separators inside one line
 		for _, s1 := range c18Seps {
 			for _, s2 := range c18Seps {
